@@ -7,6 +7,8 @@ mod gen_stream;
 mod negot;
 mod stream_engine;
 mod rng;
+mod sched_engine;
+mod sched_gen;
 mod serve_engine;
 mod val;
 
@@ -113,6 +115,28 @@ fn main() {
                     drop(emit_serve);
                     histories::gen_c15(&mut rng, thorough, &mut cases, &mut meta, &prop);
                 }
+                "C10" => {
+                    drop(emit_serve);
+                    let mut k = 0u64;
+                    let mut total = 0usize;
+                    let mut exhausted_all = true;
+                    sched_gen::gen_c10(&mut rng, thorough, &mut |c: sched_engine::SchedCase| {
+                        let max = if thorough { 4000 } else { 400 };
+                        let (n, ex) = sched_engine::explore(&c, max, &mut |r| {
+                            let id = format!("{}-{}", prop, k);
+                            k += 1;
+                            writeln!(cases, "{}", sched_engine::case_line(&id, &c, r)).unwrap();
+                            let mut checks = vec![];
+                            if r.stuck { checks.push("C10:consumer-asleep-while-termination-pending".to_string()); }
+                            if r.timeout { checks.push("C10:thread-blocked-deadlock".to_string()); }
+                            if r.wake_while_locked { checks.push("C10:wake-while-holding-the-lock".to_string()); }
+                            writeln!(meta, "{}\t{} schedule={:?}\t{}", id, c.class, r.choices, checks.join(",")).unwrap();
+                        });
+                        total += n;
+                        exhausted_all &= ex;
+                    });
+                    eprintln!("schedules={} exhaustive={}", total, exhausted_all);
+                }
                 "C16" => {
                     drop(emit_serve);
                     let mut k = 0u64;
@@ -180,6 +204,16 @@ fn main() {
                 let line = line.unwrap();
                 let mut it = line.splitn(3, ' ');
                 let (engine, id, rest) = (it.next().unwrap_or(""), it.next().unwrap_or(""), it.next().unwrap_or(""));
+                if engine == "sched" {
+                    let v = val::Val::parse(rest).expect("case value");
+                    let input = match &v {
+                        val::Val::L(l) if l.len() == 2 => l[0].clone(),
+                        _ => v.clone(),
+                    };
+                    let (c, choices) = sched_engine::case_of_input(&input).expect("decodable sched input");
+                    let r = sched_engine::run_one(&c, &choices);
+                    writeln!(out, "{}", sched_engine::case_line(id, &c, &r)).unwrap();
+                }
                 if engine == "stream" {
                     let v = val::Val::parse(rest).expect("case value");
                     let input = match &v {
